@@ -42,6 +42,29 @@ type c08Args struct {
 	Shard  int
 	Shards int
 	Depth  int
+	Warm   int // >0: start from four keys with distinct access counts/times (usage exactly at a four-key limit), variant Warm
+}
+
+// c08Warm: four keys at the limit with distinct access frequencies and recencies - the state from which deleting the
+// coldest key and then growing a hot one tells whether the eviction order survives removals from the middle of the heap.
+func c08Warm(volatile bool, variant int) []Action {
+	set := func(k string) Action {
+		if volatile {
+			return tcmd("SET", k, "v", "EX", "1000")
+		}
+		return tcmd("SET", k, "v")
+	}
+	// extra accesses per key (k1..k4) after the four writes: which key is hot, and therefore the heap layout, differs
+	freq := [][4]int{{3, 0, 2, 1}, {1, 0, 3, 2}, {2, 0, 1, 3}, {0, 3, 1, 2}, {3, 1, 2, 0}}[variant-1]
+	out := []Action{set("k1"), set("k2"), set("k3"), set("k4")}
+	for round := 0; round < 3; round++ {
+		for i, k := range []string{"k1", "k2", "k3", "k4"} {
+			if freq[i] > round {
+				out = append(out, tcmd("GET", k))
+			}
+		}
+	}
+	return out
 }
 
 var c08Policies = []string{"noeviction", "allkeys-lru", "allkeys-lfu", "volatile-lru", "volatile-lfu", "allkeys-random", "volatile-random"}
@@ -66,6 +89,12 @@ func (c08Check) Units(tier string, seed int64) []Unit {
 			}
 		}
 	}
+	for _, p := range []string{"allkeys-lfu", "allkeys-lru", "volatile-lfu", "volatile-lru"} {
+		for v := 1; v <= 5; v++ {
+			b, _ := json.Marshal(c08Args{Policy: p, K: 5, Shard: 0, Shards: 1, Depth: depth - 1, Warm: v})
+			us = append(us, Unit{Name: fmt.Sprintf("%s-warm%d-k5-depth%d", p, v, depth-1), Args: b})
+		}
+	}
 	return us
 }
 
@@ -76,7 +105,7 @@ func c08Alphabet() []Action {
 	for _, k := range []string{"k1", "k2", "k3", "k4"} {
 		a = append(a, tcmd("SET", k, "v"), tcmd("SET", k, "v", "EX", "1000"), tcmd("GET", k), tcmd("TOUCH", k))
 	}
-	a = append(a, tcmd("SET", "k1", strings.Repeat("x", 40)), tcmd("DEL", "k2"), tcmd("FLUSHDB"), tcmd("MGET", "k1", "k3"),
+	a = append(a, tcmd("SET", "k1", strings.Repeat("x", 40)), tcmd("DEL", "k2"), tcmd("DEL", "k1"), tcmd("DEL", "k3"), tcmd("DEL", "k4"), tcmd("FLUSHDB"), tcmd("MGET", "k1", "k3"),
 		// multi-key accesses in both orders (one key may be volatile, the other not)
 		tcmd("MGET", "k2", "k1"), tcmd("TOUCH", "k1", "k2"), tcmd("TOUCH", "k3", "k1"))
 	return a
@@ -326,7 +355,17 @@ func (c08Check) Run(u Unit, w *Worker) UnitResult {
 		}
 		return fs
 	}
-	runSeq(spec, nil, func(i int) bool { return i%a.Shards == a.Shard }, w, &res)
+	var root []Action
+	if a.Warm > 0 {
+		root = c08Warm(strings.HasPrefix(a.Policy, "volatile"), a.Warm)
+		// memory pressure that does not come from a new key: a hot key grows (three keys + this one cross the five-key limit)
+		big := tcmd("SET", "k1", strings.Repeat("y", 120))
+		if strings.HasPrefix(a.Policy, "volatile") {
+			big = tcmd("SET", "k1", strings.Repeat("y", 120), "EX", "1000")
+		}
+		alpha = append(append([]Action{}, alpha...), big)
+	}
+	runSeq(spec, root, func(i int) bool { return i%a.Shards == a.Shard }, w, &res)
 	res.Samples = append(res.Samples, map[string]any{"policy": a.Policy, "limit": L, "limit_keys": a.K, "depth": a.Depth, "alphabet": len(alpha)})
 	return res
 }
